@@ -127,6 +127,8 @@ class Program:
             v = fn(k)
             total += v * (cid % 17 + 1)
             lines.append(f"c{cid}={v}\n")
+        # the two call-free functions (zqvNoCall / ZqvNoCallD), one per package
+        total += 2 * (k * 2 + 1 if k > 3 else k + 1)
         lines.append(f"total={total}\n")
         return "".join(lines), total % 113
 
